@@ -6,6 +6,22 @@ FIX_COMMITS = subprocess.run(["git","-C","/repo","log","--format=%h %s","5dec6d4
 
 # id -> (technique, level text, level note, design ref)
 CHECKS = {
+ "C03": ("must-hold lockset dataflow over every shared map access, lock release / lock order, recover-guard shape, goroutine panic-site search over the call graph, defer pairing, registration gate (go/ssa + call graph)",
+         "Structural necessary conditions for containment: the two per-connection entry functions defer a directly-recovering dontPanic first and all handlers/transfer handlers are only called below them; no explicit panic or unchecked type assertion is reachable from a goroutine that is not recover-guarded; every lookup/store/delete/range on a map held in a struct field runs with a mutex of the owning struct held on the same object (a concurrent map write is an unrecoverable process abort); every Lock is released on all paths and the lock-order graph is acyclic; gauges, the transfer registration and the client registration are paired with deferred releases; a connection is registered only when authenticated and with a non-nil account.",
+         "Trusted: 'concurrent map access is fatal' and recover semantics of the Go runtime. Not decided: absence of every panic or deadlock, timeliness of replies to other clients, memory/descriptor exhaustion, the rate limiter's effectiveness, the client library (excluded, reported).",
+         "4/C03"),
+ "C14": ("lockset at every write to a registered client's connection, bound check shape of NewField, who-may-construct replies, max-count dataflow of reply constructors per handler path, plus C01's rules for Transaction/Field (go/ssa)",
+         "Structural necessary conditions: every write to ClientConn.Connection holds a mutex stored in that same ClientConn and the login sequence never writes to the raw connection after registration (so the bytes of two transactions cannot interleave); NewField's 16-bit prefix is len of the very bytes it stores and that value is bounded by 65535 on every path; replies are only built by NewReply/NewErrReply from the handler's own (cc, t), copying request ID and client ID; at most one reply constructor executes on any path of each of the 43 handlers; Transaction/Field obey the cursor protocol and layout.",
+         "Not decided: actual interleavings and liveness under load ('a request answered alone is answered under load'), delivery order through the outbox.",
+         "4/C14"),
+ "C18": ("C01's cursor/layout rules on the three news encoders, must-pass-through of writeFile, lockset on the news maps, shape checks of the list builder and the ID allocation (go/ssa)",
+         "Narrow structural part: the news list encoders obey the cursor protocol and the protocol layouts; the four mutators reach a success return only through writeFile under the store mutex and Load reads the file writeFile renames onto; every access to the category/article maps holds the store mutex; the article list is sorted by numeric ID before encoding, announces the number of encoded entries and fills each entry from one article; PostArticle stores under max+1 (1 if empty) and records the requested parent.",
+         "Not decided: ID freshness over histories, thread links beyond the recorded parent, 'removes exactly that item', reload equality - properties of map contents over histories.",
+         "4/C18"),
+ "C19": ("lockset on the shared read cursor, critical-section check of Seek+Read call sites, ordering/argument-order checks of the post path (go/ssa)",
+         "Structural necessary conditions: every access to the read cursor of the two stores shared by all connections must hold the store mutex and every Seek+Read sequence on them must sit in one critical section - both FAIL on this tree at four sites, which are one design-level defect recorded in known_findings.json (the check prints KNOWN-FINDING lines and fails on any further site); FlatNews.Write prepends the post to the old text under the mutex and persists it before success; the post handler announces and acknowledges only on Write's success edge; both Read methods obey the cursor protocol.",
+         "Not decided: completeness of the text a reader gets once the shared-cursor defect is repaired; post formatting.",
+         "4/C19"),
  "C08": ("value-flow of the resume offset to a skip on the copied reader, edge-cut reachability for the preview gate, emission order by dominance, arithmetic shape of the size fields, plus C01's layout/prefix rules (go/ssa)",
          "Structural part only: the client's resume offset reaches a Seek/Discard on the very reader that is copied, dominating the copy; the flattened-file header is unreachable for a preview and data is sent in both cases; header, data fork, resource-fork header and resource fork are emitted in that order; the reply takes its offset from the request, field 207 is the data-fork header's size = file size - offset, field 108 is TransferSize(0) or the data size under the preview option, TransferSize = data + resource + emitted header length - offset; the header's own size fields follow from the extracted layout.",
          "Not decided: that the bytes on the wire equal the bytes of the file on disk, size arithmetic at run time for every file size (e.g. 32-bit truncation above 4 GiB), resource-fork presence logic, the trailing zero-length MACR header.",
